@@ -266,3 +266,39 @@ fn check_agree(name: &str, load: fn(&mut SparqlDatabase, &str), kind: usize) {
 #[test] fn w__literals__nquads_agrees_with_ntriples_on_plain() { check_agree("nquads", |db, t| db.parse_nquads_and_add(t), 0); }
 #[test] fn w__literals__nquads_agrees_with_ntriples_on_language_tagged() { check_agree("nquads", |db, t| db.parse_nquads_and_add(t), 1); }
 #[test] fn w__literals__nquads_agrees_with_ntriples_on_typed() { check_agree("nquads", |db, t| db.parse_nquads_and_add(t), 2); }
+
+// ---- N-Quads: the graph name is the fourth term of the line, whatever the object looks like ----------------------
+#[test] fn w__parse_nquads_and_add__every_quad_lands_in_its_graph() {
+    use shared::dataset_index::GraphId;
+    let objects: [(&str, &str); 9] = [
+        ("iri", "<http://e/o1>"), ("plain", "\"plain\""), ("blanks", "\"two words\""), ("escaped-quote", "\"quote \\\" inside\""),
+        ("trailing-backslash", "\"C:\\\\dir\\\\\""), ("angle-and-hash", "\"a<b>c#d\""), ("language-tag", "\"x\"@en"),
+        ("datatype", "\"5\"^^<http://www.w3.org/2001/XMLSchema#integer>"), ("backslash-inside", "\"a\\\\b\""),
+    ];
+    let graphs: [Option<&str>; 3] = [None, Some("http://e/g1"), Some("http://e/g2")];
+    let mut text = String::new();
+    let mut want: std::collections::BTreeMap<String, Option<String>> = Default::default();
+    for (oi, (name, obj)) in objects.iter().enumerate() { for (gi, g) in graphs.iter().enumerate() {
+        let s = format!("http://e/s-{}-{}", name, gi);
+        match g { Some(g) => text.push_str(&format!("<{}> <http://e/p{}> {} <{}> .\n", s, oi, obj, g)), None => text.push_str(&format!("<{}> <http://e/p{}> {} .\n", s, oi, obj)) }
+        want.insert(s, g.map(|x| x.to_string()));
+    }}
+    for prior_kind in 0..2 {
+        let (mut db, before) = prior(prior_kind);
+        db.parse_nquads_and_add(&text);
+        let mut got: std::collections::BTreeMap<String, Vec<Option<String>>> = Default::default();
+        for q in db.dataset_index.all_quads() {
+            let s = db.decode_any(q.subject).unwrap_or_default();
+            if !s.starts_with("http://e/s-") { continue; }
+            let g = match q.graph { GraphId::Default => None, GraphId::Named(g) => db.decode_any(g) };
+            got.entry(s).or_default().push(g);
+        }
+        for (s, g) in &want {
+            let placed = got.get(s).cloned().unwrap_or_default();
+            assert!(placed == vec![g.clone()], "parse_nquads_and_add (prior content #{}): the quad with subject <{}> must be stored once in graph {:?}; stored in {:?}. Document line: {:?}",
+                prior_kind, s, g, placed, text.lines().find(|l| l.contains(s.as_str())).unwrap_or(""));
+        }
+        assert!(got.len() == want.len(), "parse_nquads_and_add: {} subjects stored, the document has {}", got.len(), want.len());
+        assert!(lexical(&db).len() == before.len() + want.len(), "parse_nquads_and_add: {} quads stored, expected the {} previous ones plus {}", lexical(&db).len(), before.len(), want.len());
+    }
+}
